@@ -325,4 +325,6 @@ def run(run: Run):
     run.floor('C13.R6', 4)
     from .common import shared_mechanisms as _shared
     _shared(run, 'C13', 9, ['stored-values'])
+    from .common import shared_mechanisms as _shared_f
+    _shared_f(run, 'C13', 10, ['formulas'])
     return INFO
